@@ -139,13 +139,13 @@ class Chipset(pn53x.Chipset):
 
     def _read_register(self, data):
         data = self.command(0x06, data, timeout=0.25)
-        if data[0] != 0:
+        if not data or data[0] != 0:
             self.chipset_error(data)
         return data[1:]
 
     def _write_register(self, data):
         data = self.command(0x08, data, timeout=0.25)
-        if data[0] != 0:
+        if not data or data[0] != 0:
             self.chipset_error(data)
 
     def tg_init_as_target(self, mode, mifare_params, felica_params,
